@@ -235,6 +235,14 @@ type Manifest struct {
 	WellFormed bool
 	// Expect names the known generator defect this manifest is a witness of ("" for ordinary members)
 	Expect string
+	// HandWritten: files (path relative to the output directory -> content) that must be in the output directory BEFORE
+	// generation: the hand-written <Type>.go that makes a typeref custom (cmd.LocateCustomTyperefs).  They are not
+	// generated files, so cleaning must leave them alone.
+	HandWritten map[string]string
+	// Custom: the typerefs made custom by HandWritten (the emitted manifest must record isCustom for them)
+	Custom []Ref
+	// Downstream: a second project that is generated against THIS project's emitted manifest (two-step generation)
+	Downstream *Manifest
 }
 
 func (m *Manifest) JSON() []byte {
